@@ -18,13 +18,13 @@ func tryReplay(E *Engine, o *Obligation, rep map[string]interface{}, root, scrat
 }
 
 // runBounded runs a bounded stand-in command (labelled bounded, never counted as proved).
-func runBounded(bc BoundedCfg, prop, root, tier string, seed int, replayDir string) map[string]interface{} {
+func runBounded(bc BoundedCfg, prop, root, tier string, seed int, replayDir, repo string) map[string]interface{} {
 	t0 := time.Now()
 	ctx, cancel := context.WithTimeout(context.Background(), 20*time.Minute)
 	defer cancel()
 	cmd := exec.CommandContext(ctx, "bash", "-c", bc.Cmd)
 	cmd.Dir = root
-	cmd.Env = append(os.Environ(), fmt.Sprintf("VERIF_SEED=%d", seed), "VERIF_TIER="+tier, "VERIF_PROP="+prop, "VERIF_REPLAY_DIR="+replayDir)
+	cmd.Env = append(os.Environ(), fmt.Sprintf("VERIF_SEED=%d", seed), "VERIF_TIER="+tier, "VERIF_PROP="+prop, "VERIF_REPLAY_DIR="+replayDir, "VERIF_REPO="+repo, "VERIF_ROOT="+root)
 	out, err := cmd.CombinedOutput()
 	res := map[string]interface{}{"name": bc.Name, "cmd": bc.Cmd, "label": "bounded", "wall_s": time.Since(t0).Seconds(), "ok": err == nil}
 	s := string(out)
